@@ -237,6 +237,30 @@ def check_word(spec):
               nontrivial=len(word) > 1 or word[0] in SYN_WIRES or word[0] == "MCX3")
 
 
+def check_algebra(spec):
+    """Resources objects combine like Counters and never modify their operands:
+    spec = {"a": letter, "b": letter, "c": letter, "n": int}."""
+    a, b, c_ = (_estimate_word([spec[k]], None) for k in ("a", "b", "c"))
+    n = spec["n"]
+    ca, cb, cc = _counts(a), _counts(b), _counts(c_)
+    snap = lambda r: (dict(_counts(r)), r.zeroed_wires, r.any_state_wires, r.algo_wires)
+    sa, sb, sc = snap(a), snap(b), snap(c_)
+    steps = [("add_series", lambda: a.add_series(b), ca + cb), ("add_series-again", lambda: a.add_series(c_), ca + cc),
+             ("add_parallel", lambda: a.add_parallel(b), ca + cb), ("add_parallel-again", lambda: b.add_parallel(a), ca + cb),
+             ("multiply_series", lambda: a.multiply_series(n), Counter({k: n * v for k, v in ca.items()})),
+             ("multiply_parallel", lambda: a.multiply_parallel(n), Counter({k: n * v for k, v in ca.items()})),
+             ("chain", lambda: a.add_series(b).add_series(c_), ca + cb + cc)]
+    for name, f, exp in steps:
+        r = f()
+        if _counts(r) != exp:
+            return bad(f"algebra:{name}:gate-counts", dict(_counts(r)), dict(exp))
+        if r.zeroed_wires < 0 or r.any_state_wires < 0 or r.total_wires < r.algo_wires:
+            return bad(f"algebra:{name}:wires", [r.zeroed_wires, r.any_state_wires, r.algo_wires], ">= 0 and total >= algo")
+        if (snap(a), snap(b), snap(c_)) != (sa, sb, sc):
+            return bad(f"algebra:{name}:operand-modified", [snap(a), snap(b), snap(c_)], [sa, sb, sc])
+    return ok(outcome=[sum(ca.values()), sum(cb.values()), sum(cc.values()), n], nontrivial=True)
+
+
 def check_budget(spec):
     """Tight budgets: over-grab must raise ValueError and never produce negative counters."""
     word, zeroed = spec["word"], spec["zeroed"]
@@ -277,6 +301,9 @@ def run(ctx):
     n = 2 if ctx.quick else 3
     W = list(words(LETTERS, n, 1))
     ctx.enumerate([{"word": w, "gate_set": g} for w in W for g in (GATE_SETS if len(w) <= 2 else ["default"])], fn="check_word", axis="workflows")
+    pool_letters = ["X", "Toffoli", "QFT3", "MCX3", "S1", "S3"]
+    ctx.enumerate([{"a": a, "b": b, "c": c_, "n": n} for a in pool_letters for b in pool_letters for c_ in pool_letters[:3] for n in (1, 3)],
+                  fn="check_algebra", axis="resources-algebra")
     syn = ["S1", "S2", "S3"]
     ctx.enumerate([{"word": w, "zeroed": z} for w in words(syn, 3, 1) for z in (0, 1, 2, 3, 4)], fn="check_budget", axis="tight-budget")
     ctx.coverage.update({
